@@ -99,3 +99,18 @@ CASES += [
     {"name": "molecule to be removed is looked up in the table of names", "kind": "mutant", "rule": "C03-K", "edits": [
         ("quantarhei/builders/aggregate_base.py", "        im = self.monomers.index(mono)\n        self.monomers.remove(mono)", "        im = self.mnames[mono.name]\n        self.monomers.remove(mono)", 1)]},
 ]
+
+_DM3 = "quantarhei/qm/hilbertspace/dmoment.py"
+_DS_OLD = ("        d = numpy.zeros(3,dtype=numpy.float64)        \n        for i in range(3):        \n"
+           "            d[i] = self.data[fstate,tstate,i]\n        return numpy.dot(d,d)\n")
+_TR_OLD = "            self._data[:,:,i] = numpy.dot(S1,numpy.dot(self._data[:,:,i],SS))\n        \n"
+CASES += [
+    {"name": "dipole strengths kept from the first request; transform() resets them, but the request does not touch the "
+             "managed data first (seeded change of round 8)", "kind": "mutant", "rule": "C03-I", "edits": [
+        (_DM3, _DS_OLD, "        if getattr(self, \"_dstrength\", None) is None:\n            dd = numpy.real(self.data)\n"
+                        "            self._dstrength = numpy.einsum(\"abi,abi->ab\", dd, dd)\n        return self._dstrength[fstate,tstate]\n", 1),
+        (_DM3, _TR_OLD, "            self._data[:,:,i] = numpy.dot(S1,numpy.dot(self._data[:,:,i],SS))\n        self._dstrength = None\n        \n", 1)]},
+    {"name": "dipole strengths of all transitions computed at once on every request", "kind": "twin", "edits": [
+        (_DM3, _DS_OLD, "        dd = numpy.real(self.data)\n        dstrength = numpy.einsum(\"abi,abi->ab\", dd, dd)\n"
+                        "        return dstrength[fstate,tstate]\n", 1)]},
+]
